@@ -159,7 +159,7 @@ def rule_sources(program, ctx):
                 ctx.bad(finding_at(P, rid, c, "an id enters the GC's deletion list outside the two range walks"))
     for fn in [kc] + list(helpers.values()):
         for l in walks_in(fn):
-            brk = [n for n in l.body if isinstance(n, ast.If) and any(isinstance(b, ast.Break) for b in n.body)]
+            brk = [n for n in l.body if isinstance(n, ast.If) and any(isinstance(b, ast.Break) or type(b).__name__ == "RegionExit" for b in n.body)]
             first = l.body[0] if l.body else None
             good = brk and brk[0] is first and isinstance(brk[0].test, ast.Compare) and isinstance(brk[0].test.ops[0], (ast.Gt, ast.GtE)) and isinstance(l.target, ast.Name) and dotted(brk[0].test.left) == l.target.id
             if not good:
@@ -390,7 +390,7 @@ def rule_complete(program, ctx):
                 return False
 
             coll = cfg.stmt_nodes(collects, kinds=("stmt",))
-            brk = cfg.stmt_nodes(lambda st: isinstance(st, ast.Break) and id(st) in inside, kinds=("stmt",))
+            brk = cfg.stmt_nodes(lambda st: (isinstance(st, ast.Break) or type(st).__name__ == "RegionExit") and id(st) in inside, kinds=("stmt",))
             if not coll:
                 ctx.bad(finding_at(P, rid, l, f"the range walk collects nothing of the form `{want}` (the event id is the last 32 bytes of the index key)"))
                 continue
